@@ -4,15 +4,17 @@ Jacobian blocks are references into the symbolic heap of arrays (identity / alia
 array denotes a matrix of the abstract ring of pyvc/plug_np_c07.py (``m_mul`` / ``m_add`` uninterpreted).  The disciplines are opaque; their
 Jacobians are the ghost dictionary ``self._c09n_disc_jacs`` (pyvc/plug_c09n.py).
 
-(1) ``MDOChain.reverse_chain_rule`` - ONE step of the reverse accumulation, for any number of chain outputs, of entries of the running
-    dictionary and of blocks of the discipline (three nested loop invariants).  With J the running dictionary at entry, D the Jacobian of
-    the discipline, for every chain output o that J already holds and every variable v that the discipline does not produce:
+(1) ``MDOChain.reverse_chain_rule`` (repaired source, 53b5901) - ONE step of the reverse accumulation, for any number of chain outputs, of entries
+    of the running dictionary and of blocks of the discipline (three nested loop invariants).  With J the running dictionary at entry, D the
+    Jacobian of the discipline, for every chain output o that J already holds and EVERY variable v:
 
-        J'[o][v]  =  J[o][v]  (+)  sum over the y in sorted(keys(J[o]) & keys(D)) with v in D[y] of  J[o][y] * D[y][v]
+        J'[o][v]  =  (J[o][v] unless the discipline produces v)  (+)  sum over the y in sorted(keys(J[o]) & keys(D)) with v in D[y] of  J[o][y] * D[y][v]
 
     ((+): an absent entry is a structural zero; the sum is the left fold ``c09n_g`` over the sorted enumeration, the products use the
-    ENTRY value of J[o][y]); a chain output that J does not hold and the discipline produces gets a fresh copy of D[o]; every other row and
-    every array of the disciplines are unchanged (the in-place ``+=`` only ever hits blocks owned by the running dictionary).
+    ENTRY value of J[o][y], which is popped from the row before the composition: overwritten and self-coupled variables are exact); a chain
+    output that J does not hold and the discipline produces gets a fresh copy of D[o]; every other row and every array of the disciplines are
+    unchanged (the in-place ``+=`` only ever hits blocks owned by the row).
+(2) ``MDOChain.copy_jacs`` on one row (the flat-dictionary branch, called by (1)).
 """
 from __future__ import annotations
 
